@@ -167,7 +167,10 @@ func (r verifRRec) isTuple(t *openfgav1.Tuple) bool {
 
 // verifRStore builds a store "s" with n <= 3 symbolic records with pairwise distinct keys (store invariant).
 func verifRStore() (*MemoryBackend, []verifRRec) {
-	n := vt.Choose("n", vt.ParamInt("n", 3)+1)
+	n := vt.ParamInt("nfix", -1) // pinned by the job (spreads the fork over parallel jobs) ...
+	if n < 0 {
+		n = vt.Choose("n", vt.ParamInt("n", 3)+1) // ... or forked over 0..n
+	}
 	names := [...]string{"0", "1", "2", "3"}
 	var recs []verifRRec
 	ds := New().(*MemoryBackend)
